@@ -938,3 +938,74 @@ func returnsFresh(c *ssa.Call, idx, depth int) bool {
 	})
 	return ok && n > 0
 }
+
+// ExitImbalance describes a function whose returns disagree on which locks
+// are held relative to its entry: on some path a lock taken in the function
+// is still held at return while on others it is not (a leaked lock), or an
+// entry lock is released on some returns only.
+type ExitImbalance struct {
+	Fn     *ssa.Function
+	Ret    ssa.Instruction
+	Lock   string // class@path
+	Leaked bool   // true: held at this return but not at every return; false: released here but not everywhere
+}
+
+// ExitImbalances compares, per function, the lock state at every return
+// (deferred lock operations applied) and reports the returns that deviate
+// from what all returns have in common.
+func (la *LockAnalysis) ExitImbalances() []ExitImbalance {
+	var out []ExitImbalance
+	for _, fn := range la.P.Funcs {
+		entry := la.Entry[fn]
+		if entry == nil {
+			entry = lockset{}
+		}
+		type ex struct {
+			in ssa.Instruction
+			ls lockset
+		}
+		var exits []ex
+		Instrs(fn, func(in ssa.Instruction) {
+			if _, ok := in.(*ssa.Return); ok {
+				if cur, ok := la.At[in]; ok && cur != nil {
+					exits = append(exits, ex{in, la.afterDefers(fn, cur)})
+				}
+			}
+		})
+		if len(exits) < 2 {
+			continue
+		}
+		common := exits[0].ls
+		for _, e := range exits[1:] {
+			common = meet(common, e.ls)
+		}
+		for _, e := range exits {
+			for k := range e.ls {
+				if _, ok := common[k]; !ok {
+					if _, atEntry := entry[k]; !atEntry {
+						out = append(out, ExitImbalance{fn, e.in, k, true})
+					}
+				}
+			}
+		}
+		// entry locks released on some returns only
+		for k := range entry {
+			heldSomewhere, heldEverywhere := false, true
+			for _, e := range exits {
+				if _, ok := e.ls[k]; ok {
+					heldSomewhere = true
+				} else {
+					heldEverywhere = false
+				}
+			}
+			if heldSomewhere && !heldEverywhere {
+				for _, e := range exits {
+					if _, ok := e.ls[k]; !ok {
+						out = append(out, ExitImbalance{fn, e.in, k, false})
+					}
+				}
+			}
+		}
+	}
+	return out
+}
